@@ -270,6 +270,17 @@ theorem C05_macho_starts_fuel (bytes : List UInt8) (extra : Nat) :
     machoStartsFrom (bytes.length + 1 + extra) bytes 0 = machoStarts bytes :=
   machoStartsFrom_fuel bytes (bytes.length + 1) extra 0 (by omega)
 
+/-- Mach-O: `read_uleb128` inverts the standard ULEB128 encoding for every `u64` value, whatever follows. -/
+theorem C05_uleb_roundtrip (n : Nat) (hn : n < U64) (rest : List UInt8) :
+    readUleb128 (ulebEncode n ++ rest) = some (n, rest) := readUleb128_encode n hn rest
+
+/-- Mach-O: `get_function_starts` on the standard encoding of any list of non-zero deltas (sum below 2^64) followed by
+the zero terminator and anything after it yields the running sums of the deltas, each truncated to `u32`; in
+particular it does not panic and ignores what follows the terminator. -/
+theorem C05_macho_starts_spec (ds : List Nat) (junk : List UInt8) (hpos : ∀ d ∈ ds, 0 < d) (hsum : ds.sum < U64) :
+    machoStarts ((ds.flatMap ulebEncode) ++ 0 :: junk) = some ((runningSums 0 ds).map (· % U32)) :=
+  machoStarts_encode ds junk hpos hsum
+
 /-- The whole pipeline, for every presentation of an ELF / Mach-O / PE file (any segments, sections, symbols,
 exports, `.eh_frame` FDEs / LC_FUNCTION_STARTS bytes / `__unwind_info` starts / `.pdata` bytes): if loading does not
 panic, every successful lookup on the resulting map, in any address form, returns a symbol that contains the relative
@@ -396,6 +407,17 @@ end Bp
 
 section Jit
 open JitDump
+
+/-- The file-layout hypothesis of `WF` is not an assumption about jitdump files: for *every* record stream (code
+loads, debug-info records, other records of any sizes), every header length `off` and every file length (a dump that
+is still being written is cut anywhere), the entries `from_reader` builds are laid out one after the other, and lie
+inside the file. With non-empty code records below 4 GiB the whole of `WF` holds, so `C05_contains_jit`,
+`C05_greatest_jit`, `C05_complete_jit`, `C05_forms_jit`, `C05_no_panic_jit` apply to every such file. -/
+theorem C05_jit_from_reader (fileLen off : Nat) (recs : List Rec) :
+    (entriesFrom fileLen off recs).Pairwise (fun e1 e2 => e1.codeOff + e1.len < e2.codeOff) ∧
+    (∀ e ∈ entriesFrom fileLen off recs, off + 57 ≤ e.codeOff ∧ e.codeOff + e.len ≤ fileLen) ∧
+    ((∀ nl cl nm, Rec.load nl cl nm ∈ recs → 0 < cl ∧ cl < U32) → WF (entriesFrom fileLen off recs)) :=
+  ⟨entriesFrom_layout fileLen recs off, entriesFrom_lower fileLen recs off, entriesFrom_WF fileLen off recs⟩
 
 /-- With non-empty code records below 4 GiB the cumulative relative addresses are strictly increasing
 (so `binary_search` has a unique answer), and building the index does not overflow as long as the sum of
@@ -644,6 +666,12 @@ example : JitDump.buildIndex C05_exJit = some ⟨C05_exJit, [0, 5]⟩ := by deci
 example : JitDump.lookup ⟨C05_exJit, [0, 5]⟩ (.rel 11) = .hit ⟨5, some 7, [98]⟩ := by decide
 example : JitDump.lookup ⟨C05_exJit, [0, 5]⟩ (.fileOffset 167) = .hit ⟨5, some 7, [98]⟩ := by decide
 example : JitDump.lookup ⟨C05_exJit, [0, 5]⟩ (.rel 12) = .miss := by decide
+
+/-- a record stream: load(5 code bytes), debug info, load(7), cut 3 bytes before the end: the second load is dropped -/
+example : JitDump.entriesFrom 218 40 [.load 1 5 (some [97]), .debugInfo 53, .load 1 7 (some [98])]
+    = [⟨98, 5, some [97]⟩] := by decide
+example : JitDump.entriesFrom 221 40 [.load 1 5 (some [97]), .debugInfo 53, .load 1 7 (some [98])]
+    = [⟨98, 5, some [97]⟩, ⟨214, 7, some [98]⟩] := by decide
 
 /-- the excluded point: a zero-length record repeats a key; the model's `bsearch` (like the pinned standard
 library) returns the last hit, which is the only one that can be non-empty -/
